@@ -943,7 +943,7 @@ func runC29Agreement(c *core.Check) {
 					continue
 				}
 				f := core.FieldOf(info, sel)
-				if f == nil || !core.FieldIs(info, sel, "d2target", "Connection", f.Name()) {
+				if f == nil || !isConnExpr(info, sel.X) {
 					continue
 				}
 				isPresence := core.IsNil(info, be.Y)
@@ -972,7 +972,7 @@ func runC29Agreement(c *core.Check) {
 		info := bb.Pkg.TypesInfo
 		ast.Inspect(bb.Decl.Body, func(n ast.Node) bool {
 			if sel, ok := n.(*ast.SelectorExpr); ok {
-				if f := core.FieldOf(info, sel); f != nil && core.FieldIs(info, sel, "d2target", "Connection", f.Name()) {
+				if f := core.FieldOf(info, sel); f != nil && isConnExpr(info, sel.X) {
 					mentioned[f.Name()] = true
 				}
 			}
@@ -982,4 +982,17 @@ func runC29Agreement(c *core.Check) {
 	for _, f := range sortedKeys(parts) {
 		c.Decide(mentioned[f], "C29.connection-parts", "connection-parts:"+f, parts[f], "BoundingBox reads Connection."+f, "drawConnection draws the connection's "+f+" when it is present, BoundingBox has no term for it: it is drawn outside the reported bounds")
 	}
+}
+
+// isConnExpr: e has type d2target.Connection (or a pointer to it); fields promoted from embedded structs count.
+func isConnExpr(info *types.Info, e ast.Expr) bool {
+	t := info.TypeOf(e)
+	if t == nil {
+		return false
+	}
+	if p, ok := t.(*types.Pointer); ok {
+		t = p.Elem()
+	}
+	n, ok := t.(*types.Named)
+	return ok && n.Obj().Name() == "Connection" && n.Obj().Pkg() != nil && strings.HasSuffix(n.Obj().Pkg().Path(), "/d2target")
 }
